@@ -76,7 +76,7 @@ package cache
 //@   ensures recentTrim(rdErr == nil, sid(rec), tns(nowV)) ==> err == nil && fsExists == old(fsExists) && fsMtime == old(fsMtime) && fsBytes == old(fsBytes) && fsSize == old(fsSize) && fsData == old(fsData)
 
 // ---- C05: lookups return what the files say or not-found, and never panic ----
-//@ property C05: (*Cache).get, get$1, (*Cache).Get, (*Cache).GetBytes, (*Cache).GetFile, (*Cache).OutputFile, (*Cache).fileName, (*Cache).used
+//@ property C05: (*Cache).get, get$1, (*Cache).Get, (*Cache).GetBytes, (*Cache).GetFile, (*Cache).OutputFile, (*Cache).fileName, (*Cache).used, (*Cache).put, (*Cache).copyFile, (*Cache).putIndexEntry
 
 //@ func get$1
 //@   names (e, err)
@@ -135,18 +135,22 @@ package cache
 //@ extern crypto/sha256.New() (h)
 //@   pure
 //@   ensures h != nil
+// gSeekPos[r]: the read position of the source r as far as this call knows: set by Seek,
+// unknown (any value) after reading.
+//@ ghost var gSeekPos (Array Int Int)
 //@ extern io.Copy(dst, src) (written, err)
-//@   modifies nothing
+//@   modifies gSeekPos
 //@   ensures written >= 0
 //@ extern io.CopyN(dst, src, n) (written, err)
-//@   modifies fsData, fsSize, fsBytes, fsWrites
+//@   modifies fsData, fsSize, fsBytes, fsWrites, gSeekPos
 //@ extern io.MultiWriter(writers) (w)
 //@   pure
 //@   ensures w != nil
 //@ extern (io.ReadSeeker).Seek(s, offset, whence) (pos, err)
-//@   pure
+//@   modifies gSeekPos
+//@   ensures err == nil && whence == 0 ==> gSeekPos[s] == offset
 //@ extern (io.ReadSeeker).Read(s, p) (n, err)
-//@   modifies bytes
+//@   modifies bytes, gSeekPos
 //@ extern (hash.Hash).Sum(h, b) (r)
 //@   modifies new bytes
 //@ extern (hash.Hash).Write(h, p) (n, err)
@@ -183,6 +187,7 @@ package cache
 //@   callee c.now() (r): modifies clock
 //@   at call os.OpenFile#1: bind gOpenErr = err, gFile = name
 //@   at call bytes.Equal#1: bind gHashOK = r
+//@   at call io.CopyN#1: requires gSeekPos[src] == 0
 //@   at call (*os.File).Write#1: requires gHashOK
 //@   at call os.OpenFile#1: requires sameStr(name, my_name)
 //@   at call os.Stat#1: bind gStatErr = err
@@ -197,5 +202,6 @@ package cache
 // output id and size computed by this call; a failed copy returns its error.
 //@ func (*Cache).put
 //@   requires c != nil
+//@   at call io.Copy#1: requires gSeekPos[src] == 0
 //@   at call (*cache.Cache).copyFile#1: bind gCopyErr = result
 //@   at call (*cache.Cache).putIndexEntry#1: requires gCopyErr == nil && out == my_out && size == my_size && id == my_id
